@@ -2,7 +2,10 @@
 
 package blocklist
 
-import "sort"
+import (
+	"reflect"
+	"sort"
+)
 
 // Accessors for the C18 correspondence driver. No behaviour is changed:
 // every function below only calls an existing unexported function or reads
@@ -12,7 +15,48 @@ import "sort"
 type VerifSnap = blockSnapshot
 
 // VerifSnapVersion reads blockSnapshot.version.
-func VerifSnapVersion(s VerifSnap) uint64 { return s.version }
+func VerifSnapVersion(s VerifSnap) uint64 { return verifUint(reflect.ValueOf(s).FieldByName("version")) }
+
+// verifUint reads a counter field whatever its representation: a plain
+// unsigned integer, or a sync/atomic.Uint64 / Uint32 (struct with inner "v").
+// Reading unexported fields through reflect is allowed; nothing is written.
+func verifUint(v reflect.Value) uint64 {
+	switch v.Kind() {
+	case reflect.Uint, reflect.Uint8, reflect.Uint16, reflect.Uint32, reflect.Uint64, reflect.Uintptr:
+		return v.Uint()
+	case reflect.Int, reflect.Int8, reflect.Int16, reflect.Int32, reflect.Int64:
+		return uint64(v.Int())
+	case reflect.Struct:
+		if f := v.FieldByName("v"); f.IsValid() {
+			return verifUint(f)
+		}
+	case reflect.Pointer:
+		if !v.IsNil() {
+			return verifUint(v.Elem())
+		}
+	}
+	panic("c18 export: counter field has an unexpected type " + v.Type().String())
+}
+
+// verifKeys returns the sorted keys of a set-like map (map[string]bool with
+// true values, or map[string]struct{}); a false value is made visible.
+func verifKeys(v reflect.Value) []string {
+	out := make([]string, 0, v.Len())
+	it := v.MapRange()
+	for it.Next() {
+		k := it.Key().String()
+		if val := it.Value(); val.Kind() == reflect.Bool && !val.Bool() {
+			k += "\x00false"
+		}
+		out = append(out, k)
+	}
+	sort.Strings(out)
+	return out
+}
+
+// VerifSaveLock / VerifSaveUnlock take BlockList.saveMu the way persist does.
+func VerifSaveLock(b *BlockList)   { b.saveMu.Lock() }
+func VerifSaveUnlock(b *BlockList) { b.saveMu.Unlock() }
 
 // VerifLock / VerifUnlock take BlockList.mu the way Set/Remove do.
 func VerifLock(b *BlockList)   { b.mu.Lock() }
@@ -32,30 +76,20 @@ func VerifPersist(b *BlockList, s VerifSnap) { b.persist(s) }
 
 // VerifDump returns sorted copies of the three maps (keys whose value is true).
 func VerifDump(b *BlockList) (m, wild, w []string) {
-	b.mu.RLock()
-	defer b.mu.RUnlock()
-	cp := func(src map[string]bool) []string {
-		out := make([]string, 0, len(src))
-		for k, v := range src {
-			if v {
-				out = append(out, k)
-			} else {
-				out = append(out, k+"\x00false")
-			}
-		}
-		sort.Strings(out)
-		return out
-	}
-	return cp(b.m), cp(b.wild), cp(b.w)
+	b.mu.Lock()
+	defer b.mu.Unlock()
+	e := reflect.ValueOf(b).Elem()
+	return verifKeys(e.FieldByName("m")), verifKeys(e.FieldByName("wild")), verifKeys(e.FieldByName("w"))
 }
 
 // VerifVersions reads version (under mu) and lastPersisted (under saveMu).
 func VerifVersions(b *BlockList) (version, lastPersisted uint64) {
-	b.mu.RLock()
-	version = b.version
-	b.mu.RUnlock()
+	e := reflect.ValueOf(b).Elem()
+	b.mu.Lock()
+	version = verifUint(e.FieldByName("version"))
+	b.mu.Unlock()
 	b.saveMu.Lock()
-	lastPersisted = b.lastPersisted
+	lastPersisted = verifUint(e.FieldByName("lastPersisted"))
 	b.saveMu.Unlock()
 	return
 }
